@@ -119,7 +119,7 @@ pub struct IfaceOpts {
 
 impl Default for IfaceOpts {
     fn default() -> Self {
-        IfaceOpts { max_types: 4, max_funcs: 3, resources: true, depth: 2, avoid_alias_of_used: true, reuse_names: false }
+        IfaceOpts { max_types: 4, max_funcs: 3, resources: true, depth: 2, avoid_alias_of_used: false, reuse_names: false }
     }
 }
 
@@ -568,10 +568,13 @@ fn usable_of(p: &Pkg, upto: usize, same_pkg: bool) -> Vec<(String, String, Strin
             // `type a = b` (an alias of a named type) is never offered for `use` by another
             // interface: recorded finding, wac's component type for an imported dependency
             // re-encodes such a used alias structurally (invalid instance type or panic)
-            if matches!(def, TypeDef::Alias(Ty::Named(_))) {
-                continue;
-            }
             v.push((path.clone(), p.iface_id(&i.name), tname.clone(), matches!(def, TypeDef::Resource { .. })));
+        }
+        // a type the interface itself `use`s can be used from it in turn: chains of `use` several
+        // levels deep (a uses b.{t}, b uses c.{t}, ...)
+        for u in &i.uses {
+            let local = u.as_name.clone().unwrap_or_else(|| u.name.clone());
+            v.push((path.clone(), p.iface_id(&i.name), local, u.is_resource));
         }
     }
     v
